@@ -8,6 +8,7 @@ import (
 	"sync"
 
 	"github.com/xelaj/mtproto/telegram"
+	"github.com/xelaj/mtproto/zverif/freepass"
 	"github.com/xelaj/mtproto/zverif/ref/srpref"
 	"github.com/xelaj/mtproto/zverif/vr"
 	"github.com/xelaj/mtproto/zverif/vrand"
@@ -45,6 +46,7 @@ type job struct {
 
 func main() {
 	run := vr.New("C18", "exploration")
+	freepass.MaybeReplay(run)
 	run.Rule("passwords x salt pairs x groups x (a, b) chosen by deterministic upward search in the reference so that A, B and S each take 0, 1 and 2 leading zero bytes (full product of the listed alphabets; the client's ephemeral a is injected through the owned random seam of the public GetInputCheckPassword); every ordered pair of distinct passwords; bad-B menu; empty password; non-trivial = distinct case whose answer was checked by the reference verifier")
 	run.Assume("reference R6 (harness/ref/srpref) implements the verifier side of core.telegram.org/api/srp with its own PBKDF2-HMAC-SHA512", "the client's random draw for a is owned through vrand (dry.RandomBytes call site)")
 	passwords := []string{"a", "correct horse", "пароль", "\x00x", strings.Repeat("z", 64)}
@@ -197,6 +199,7 @@ func main() {
 	run.Set("leading_zero_class_table", classes)
 	run.Set("client_calls", len(jobs))
 	run.Sample(map[string]any{"case": "right password, a=5 (A = g^5: 255 leading zero bytes), b chosen so that S has a leading zero byte"})
+	freepass.Run(run, run.ID, freepass.Rounds(run))
 	run.Finish()
 }
 
